@@ -17,8 +17,14 @@ import (
 // time); functions, channels and the shim's own lock bookkeeping skipped. It uses no field
 // names of Helios, so renaming a field does not break a harness. It is over-fine by
 // construction: states with different futures are never merged.
-func Fingerprint(roots ...interface{}) string {
-	f := &fper{seen: map[uintptr]int{}, now: vrt.Now()}
+func Fingerprint(roots ...interface{}) string { return FingerprintClip(0, roots...) }
+
+// FingerprintClip is Fingerprint with every instant more than clip in the past rendered
+// as "old". This merges states only if the component never compares a stored instant
+// against the clock with a distance larger than clip — the caller states that bound (the
+// largest duration the component is configured with) and thereby the correctness argument.
+func FingerprintClip(clip time.Duration, roots ...interface{}) string {
+	f := &fper{seen: map[uintptr]int{}, now: vrt.Now(), clip: clip}
 	for i, r := range roots {
 		if i > 0 {
 			f.b.WriteString(" || ")
@@ -32,7 +38,7 @@ type fper struct {
 	b    strings.Builder
 	seen map[uintptr]int
 	now  time.Time
-	skip func(t reflect.Type) bool
+	clip time.Duration
 }
 
 var timeType = reflect.TypeOf(time.Time{})
@@ -63,8 +69,10 @@ func (f *fper) walk(v reflect.Value, depth int) {
 		tm := *(*time.Time)(addrOf(v))
 		if tm.IsZero() {
 			f.b.WriteString("t0")
+		} else if d := tm.Sub(f.now); f.clip > 0 && d < -f.clip {
+			f.b.WriteString("told")
 		} else {
-			fmt.Fprintf(&f.b, "t%+d", tm.Sub(f.now).Milliseconds())
+			fmt.Fprintf(&f.b, "t%+d", d.Milliseconds())
 		}
 		return
 	}
@@ -142,7 +150,7 @@ func (f *fper) walk(v reflect.Value, depth int) {
 		it := v.MapRange()
 		for it.Next() {
 			// keys rendered without pointer ordinals side effects: use a sub-walker sharing seen
-			kf := &fper{seen: f.seen, now: f.now}
+			kf := &fper{seen: f.seen, now: f.now, clip: f.clip}
 			kf.walk(it.Key(), depth+1)
 			ents = append(ents, kv{k: kf.b.String()})
 		}
@@ -151,7 +159,7 @@ func (f *fper) walk(v reflect.Value, depth int) {
 		keyIdx := map[string]reflect.Value{}
 		it = v.MapRange()
 		for it.Next() {
-			kf := &fper{seen: map[uintptr]int{}, now: f.now}
+			kf := &fper{seen: map[uintptr]int{}, now: f.now, clip: f.clip}
 			kf.walk(it.Key(), depth+1)
 			keyIdx[kf.b.String()] = it.Value()
 		}
